@@ -4,6 +4,8 @@
   `json.load`) is the trusted library: the model works on the document tree.
 -/
 import Proofs.Encoder
+import Proofs.EncoderJson
+import Proofs.PairStateFull
 namespace Hap.Encoder
 open Hap Hap.PairState
 
@@ -51,26 +53,8 @@ theorem C14_history_roundtrip (parse : Bytes → Option Uuid) (ops : List Op) (m
     document loads, every controller of `paired_clients` has a permission entry, each entry is 1,
     and therefore every paired controller is admin. -/
 theorem C14_legacy (d : Doc) (a : AccState) (hd : d.clientProperties = none) (h : load d = some a) :
-    Aligned a.ps ∧ (∀ e ∈ a.ps.props, e.2 = 1) ∧ ∀ u ∈ akeys a.ps.paired, isAdmin a.ps u = true := by
-  unfold load at h
-  simp only [hd] at h
-  split at h
-  · next P Y priv pub U hP hY _ _ _ =>
-    cases h
-    obtain ⟨k1, k2⟩ := optMap_legacy _ P Y hP hY
-    have hal : Aligned ⟨dictOf Y, dictOf P, dictOf U⟩ := by
-      unfold Aligned; exact (akeys_dictOf_congr P Y k1).symm
-    have hone : ∀ e ∈ dictOf P, e.2 = 1 := vals_foldl_aset_const 1 P [] k2 (by simp)
-    refine ⟨hal, hone, ?_⟩
-    intro u hu
-    have hu' : u ∈ akeys (dictOf P) := by
-      have : akeys (dictOf Y) = akeys (dictOf P) := hal
-      rw [← this]; exact hu
-    obtain ⟨v, g1, g2⟩ := aget_of_mem_keys _ u hu'
-    have : v = 1 := hone (u, v) g2
-    subst this
-    simp [isAdmin, g1]
-  · cases h
+    Aligned a.ps ∧ (∀ e ∈ a.ps.props, e.2 = 1) ∧ ∀ u ∈ akeys a.ps.paired, isAdmin a.ps u = true :=
+  load_legacy_spec d a hd h
 
 /-- … and such files do load: for every saved state, the document without its
     `client_properties` member (what a version before permissions wrote) loads, with the same
@@ -94,17 +78,8 @@ theorem C14_legacy_no_id_bytes (a : AccState) (h : WF a) :
     controllers are admin and no identifier bytes are recorded. -/
 theorem C14_legacy_no_id_bytes_any (d : Doc) (a : AccState) (hd : d.clientProperties = none)
     (hu : d.clientUuidToBytes = none) (h : load d = some a) :
-    (∀ u ∈ akeys a.ps.paired, isAdmin a.ps u = true) ∧ a.ps.u2b = [] := by
-  refine ⟨(C14_legacy d a hd h).2.2, ?_⟩
-  unfold load at h
-  simp only [hu, Option.getD_none] at h
-  split at h
-  · next P Y priv pub U _ _ _ _ hU =>
-    cases h
-    simp only [optMap, Option.some.injEq] at hU
-    subst hU
-    rfl
-  · cases h
+    (∀ u ∈ akeys a.ps.paired, isAdmin a.ps u = true) ∧ a.ps.u2b = [] :=
+  load_legacy_no_ids d a hd hu h
 
 /-- Middle generation (permissions stored, identifier bytes not yet): every stored permission is
     kept; only `uuid_to_bytes` is empty. -/
@@ -112,16 +87,115 @@ theorem C14_middle_generation (a : AccState) (h : WF a) :
     load { persist a with clientUuidToBytes := none } = some { a with ps := { a.ps with u2b := [] } } :=
   load_persist_middle a h
 
-/-- Behaviour after a restart: on the reloaded state the list-pairings answer, the admin test and
-    the long-term key looked up by pair-verify are those of the saved state. -/
+
+/-! ### the file layer: member names regenerated from the source
+
+  `persistJ` / `loadJ` (HapModel/EncoderJson.lean) are `persist` / `load` composed with the JSON object of
+  the state file; which member carries which field is read from two tables regenerated on every run from
+  `AccessoryEncoder.persist` resp. `AccessoryEncoder.load_into` of the tree under check
+  (HapModel/Gen/EncoderFields.lean). JSON text (json.dump / json.load) remains the trusted library. -/
+
+/-- The member names `persist` writes are the member names `load_into` reads, field by field, and no two
+    fields share a member (both tables as regenerated from the source now). -/
+theorem C14_field_names : persistKeys = loadKeys ∧ persistKeys.Distinct := by decide
+
+/-- Lifting lemma, independent of the tables: for EVERY choice of pairwise distinct member names, every
+    permissions key and EVERY document (optional members present or absent, hash a string or null), reading
+    the JSON object that was written gives back the document. -/
+theorem C14_file_layer_any_names (K : Keys) (pk : String) (hK : K.Distinct) (d : Doc) :
+    docOfJson K pk (docToJson K pk d) = some d := docOfJson_docToJson K pk hK d
+
+/-- Round trip through the file: for every state satisfying the representation invariant, loading the JSON
+    object `persist` writes — members looked up by the names `load_into` uses — gives back exactly that state. -/
+theorem C14_roundtrip_file (a : AccState) (h : WF a) : loadJ (persistJ a) = some a :=
+  restart_identity C14_field_names a h
+
+/-- Legacy files at the file level: the saved file WITHOUT its `client_properties` member (what a release
+    before permissions wrote) loads with every stored key, identifier and the identity intact and permission
+    1 for every paired controller; without `client_uuid_to_bytes` as well, with no identifier bytes; and a
+    file without the `accessories_hash` member loads with no hash. -/
+theorem C14_legacy_file (a : AccState) (h : WF a) :
+    loadJ ((persistJ a).without persistKeys.clientProperties) =
+      some { a with ps := { a.ps with props := a.ps.paired.map fun e => (e.1, 1) } } ∧
+    loadJ (((persistJ a).without persistKeys.clientProperties).without persistKeys.clientUuidToBytes) =
+      some { a with ps := { a.ps with props := a.ps.paired.map fun e => (e.1, 1), u2b := [] } } ∧
+    loadJ ((persistJ a).without persistKeys.accessoriesHash) = some { a with accessoriesHash := none } := by
+  obtain ⟨hn, hd⟩ := C14_field_names
+  refine ⟨?_, ?_, ?_⟩
+  · unfold loadJ persistJ
+    rw [docToJson_without_cp _ _ hd, ← hn, docOfJson_docToJson _ _ hd]
+    exact load_persist_legacy a h
+  · unfold loadJ persistJ
+    rw [docToJson_without_cp _ _ hd, docToJson_without_u2b _ _ hd, ← hn, docOfJson_docToJson _ _ hd]
+    exact load_persist_oldest a h
+  · unfold loadJ persistJ
+    rw [← hn, docOfJson_without_hash _ _ hd]
+    have := load_persist { a with accessoriesHash := none } ⟨h.paired, h.props, h.u2b, h.priv, h.pub⟩
+    simpa [persist] using this
+
+/-- Whatever `load_into` produces — from a current, legacy, respelled or hand-written document — satisfies
+    the representation invariant, so every round-trip theorem above applies to it and to every state reached
+    from it. -/
+theorem C14_loaded_wf (d : Doc) (a : AccState) (h : load d = some a) : WF a := load_wf d a h
+
+/-- Every state reachable through a WHOLE-LIFE history — pair-setup completions, pair-verify exchanges (incl.
+    the identifier back-fill), `POST /pairings` requests of any kind on any connection, configuration-number
+    increments, hash updates and restarts, in any order, from a fresh accessory or from any loaded file
+    (`HRel` start, see `C06_start_fresh` / `C06_start_loaded` / `C06_start_legacy`) — saves to a file that
+    loads back to exactly that state; consequently a restart at any point of any history changes nothing but
+    the connections. -/
+theorem C14_whole_life_roundtrip (parse : Bytes → Option Uuid) (ops : List HOp) (w : World) (a : Abs) (who : Who)
+    (h : HRel parse w a who) :
+    loadJ (persistJ (hrun parse w ops).acc) = some (hrun parse w ops).acc ∧
+    (hstep parse (hrun parse w ops) .restart).1.acc = (hrun parse w ops).acc ∧
+    (hstep parse (hrun parse w ops) .restart).2 = .restarted true := by
+  have hr := hrel_run parse C14_field_names ops w a who h
+  rw [hrunBoth_fst] at hr
+  have e := restart_identity C14_field_names _ hr.wf
+  exact ⟨e, by simp only [hstep, e], by simp only [hstep, e]⟩
+
+/-- a configuration number in range -/
+def CvInRange (a : AccState) : Prop := 1 ≤ a.configVersion ∧ a.configVersion ≤ MAXCV
+
+/-- "every configuration number in range": the range 1..65535 (`MAX_CONFIG_VERSION` regenerated from
+    pyhap/const.py) is kept by every operation of a whole-life history — an increment at the maximum wraps
+    to 1, a restart restores the stored number exactly. -/
+theorem C14_config_version_in_range (parse : Bytes → Option Uuid) (ops : List HOp) (w : World) (a : Abs) (who : Who)
+    (h : HRel parse w a who) (hcv : CvInRange w.acc) : CvInRange (hrun parse w ops).acc := by
+  induction ops generalizing w a who with
+  | nil => exact hcv
+  | cons op rest ih =>
+    refine ih _ _ _ (hrel_step parse C14_field_names w a who h op) ?_
+    have hinc : ∀ x : AccState, CvInRange x → CvInRange (incrementConfigVersion x) := by
+      intro x hx
+      unfold CvInRange incrementConfigVersion at *
+      have : MAXCV = 65535 := by decide
+      simp only
+      split <;> omega
+    cases op with
+    | s sop => rw [(hstep_s parse w sop).2.2]; exact hcv
+    | config => exact hinc _ hcv
+    | hsh hh =>
+      simp only [hstep, setAccessoriesHash]
+      split
+      · exact hcv
+      · exact hinc _ hcv
+    | restart => simp only [hstep, restart_identity C14_field_names w.acc h.wf]; exact hcv
+
+/-- Behaviour after a restart: on the reloaded state the list-pairings answer, the admin test, the
+    long-term key looked up by pair-verify, the outcome of EVERY pair-verify exchange and the answer to EVERY
+    `POST /pairings` are those of the saved state, and the identity (identifier, key pair, configuration
+    number, database hash) is the saved one. -/
 theorem C14_behaviour (a : AccState) (h : WF a) :
     ∃ b, load (persist a) = some b ∧
       listItems b.ps = listItems a.ps ∧
       (∀ u, isAdmin b.ps u = isAdmin a.ps u) ∧
       (∀ u, aget b.ps.paired u = aget a.ps.paired u) ∧
+      (∀ (parse : Bytes → Option Uuid) (v : VerifyAttempt), verifiesAs parse b.ps v = verifiesAs parse a.ps v) ∧
+      (∀ (parse : Bytes → Option Uuid) (c : Conn) (body : Bytes), handlePairings parse b.ps ⟨c, body⟩ = handlePairings parse a.ps ⟨c, body⟩) ∧
       b.mac = a.mac ∧ b.configVersion = a.configVersion ∧ b.accessoriesHash = a.accessoriesHash ∧
       b.privateKey = a.privateKey ∧ b.publicKey = a.publicKey :=
-  ⟨a, load_persist a h, rfl, fun _ => rfl, fun _ => rfl, rfl, rfl, rfl, rfl, rfl⟩
+  ⟨a, load_persist a h, rfl, fun _ => rfl, fun _ => rfl, fun _ _ => rfl, fun _ _ _ => rfl, rfl, rfl, rfl, rfl, rfl⟩
 
 /-! ### non-vacuity -/
 
@@ -142,5 +216,13 @@ private def demoLegacy : Doc :=
     clientProperties := none, accessoriesHash := none, clientUuidToBytes := none,
     privateKey := toHex demoKey, publicKey := toHex demoKey }
 example : (load demoLegacy).map (fun a => a.ps.props) = some [(⟨5, by decide⟩, 1)] := by decide +kernel
+
+/-- the generated tables name the eight members of the historical format -/
+example : persistKeys.toList = ["mac", "config_version", "paired_clients", "client_properties", "accessories_hash",
+    "client_uuid_to_bytes", "private_key", "public_key"] := by decide
+/-- a concrete file: one member per field, `client_properties` values are `{"permissions": n}` objects -/
+example : loadJ (persistJ demoAcc) = some demoAcc := C14_roundtrip_file demoAcc ⟨by decide, by decide, by decide, by decide, by decide⟩
+example : CvInRange demoAcc := ⟨by decide, by decide⟩
+example : (incrementConfigVersion demoAcc).configVersion = 1 := by decide
 
 end Hap.Encoder
